@@ -910,6 +910,19 @@ func (w *world) execCore(r *hx.Run, op string) string {
 		}
 
 		return "ok"
+	case "foreign":
+		if len(f) != 2 {
+			return "bad-op"
+		}
+		w.foreign(f[1], 0)
+		// none of that may touch any sequence key
+		for i := range w.lanes {
+			if i != w.idx {
+				w.on(i).obs(r, "foreign")
+			}
+		}
+
+		return "ok"
 	case "release":
 		if w.seq == nil {
 			return "noobj"
@@ -1160,16 +1173,22 @@ func (w *world) execCore(r *hx.Run, op string) string {
 		var frwg sync.WaitGroup
 		if f[0] == "parfr" {
 			// foreign goroutines read ANOTHER key through the very handle the Sequence uses
-			for i := 0; i < 2; i++ {
+			for i := 0; i < 3; i++ {
 				frwg.Add(1)
 				go func(i int) {
 					defer panicFinding(r, "parfr")
 					defer frwg.Done()
-					for {
+					for round := 0; ; round++ {
 						select {
 						case <-stopFr:
 							return
 						default:
+						}
+						if i == 2 {
+							// a foreign WRITER: other keys of the same view through the same handle, sibling views
+							w.foreign([]string{"own", "batch", "iter", "sib", "parent"}[round%5], round)
+
+							continue
 						}
 						if i == 0 {
 							if v, err := w.cs.KVStore.Get(otherKey); err != nil || len(v) != 8 || binary.BigEndian.Uint64(v) != 0 {
@@ -1230,6 +1249,77 @@ func (w *world) execCore(r *hx.Run, op string) string {
 	}
 
 	return "bad-op"
+}
+
+var (
+	otherKey2 = []byte("other2")
+	otherKey3 = []byte("o3")
+)
+
+// foreign: what OTHER users of the same store do - to other keys of the very view the sequences live in (through the same
+// handle), to the parent view, to sibling sub-views (also one whose realm extends the sequences' realm bytes, and with the
+// very key bytes the sequences use): Set / Delete / DeletePrefix / Clear / Batched Set+Delete+Commit|Cancel / Iterate /
+// IterateKeys / Has. Nothing of it addresses a sequence key, so nothing of it may change a stored mark (the oracles
+// phantom-write / mark-behind / uncovered-lease look at every lane afterwards). Errors of these calls are not judged here.
+func (w *world) foreign(kind string, round int) {
+	st := w.stack
+	val := []byte{0xff, 0xff, 0xff, 0xff, 0xff, 0xff, 0xff, byte(round)}
+	switch kind {
+	case "own":
+		_ = st.Set(otherKey2, val)
+		_ = st.Set(otherKey3, val)
+		_, _ = st.Has(otherKey3)
+		_ = st.Delete(otherKey2)
+		_ = st.DeletePrefix(otherKey3[:2])
+		_ = st.Delete([]byte("o-absent"))
+	case "batch":
+		if b, err := st.Batched(); err == nil {
+			_ = b.Set(otherKey2, val)
+			_ = b.Set(otherKey3, val)
+			_ = b.Delete(otherKey2)
+			if round%2 == 0 {
+				_ = b.Commit()
+			} else {
+				b.Cancel()
+			}
+		}
+	case "iter":
+		n := 0
+		_ = st.Iterate(kvstore.EmptyPrefix, func(k kvstore.Key, v kvstore.Value) bool {
+			n += len(k) + len(v)
+
+			return true
+		})
+		_ = st.IterateKeys(kvstore.EmptyPrefix, func(k kvstore.Key) bool {
+			n += len(k)
+
+			return n >= 0
+		})
+		_ = st.Iterate([]byte("o"), func(k kvstore.Key, v kvstore.Value) bool { return false }, kvstore.IterDirectionBackward)
+	case "parent":
+		_ = w.parent.Set([]byte("x1"), val)
+		_ = w.parent.Set([]byte("x2"), val)
+		_ = w.parent.Delete([]byte("x1"))
+		_ = w.parent.DeletePrefix([]byte("x"))
+	case "sib":
+		for _, ext := range []string{"t", "s2", "u"} {
+			sv, err := w.parent.WithExtendedRealm([]byte(ext))
+			if err != nil {
+				continue
+			}
+			for _, l := range w.lanes {
+				_ = sv.Set(l.key, val)
+			}
+			_ = sv.Delete(w.lanes[0].key)
+			_ = sv.DeletePrefix(w.lanes[1].key[:1])
+			if b, err := sv.Batched(); err == nil {
+				_ = b.Set(w.lanes[2].key, val)
+				_ = b.Delete(w.lanes[3].key)
+				_ = b.Commit()
+			}
+			_ = sv.Clear()
+		}
+	}
 }
 
 // laneOf: `k2` / `k3` / `k4` address lanes 1 / 2 / 3 (0: not a lane prefix).
@@ -1616,7 +1706,7 @@ func genExtreme(rng *hx.Rng, n int) []string {
 		case x < 98:
 			ops = append(ops, "frelease")
 		default:
-			ops = append(ops, "sibling t")
+			ops = append(ops, hx.Pick(rng, []string{"sibling t", "foreign own", "foreign batch", "foreign sib", "foreign parent", "foreign iter"}))
 		}
 	}
 
@@ -1798,7 +1888,11 @@ func genCase(rng *hx.Rng, n int) []string {
 		case x < 93:
 			emit("mark")
 		case x < 94:
-			ops = append(ops, "sibling "+hx.Pick(rng, []string{"t", "s2", "r", "u"}))
+			if rng.Chance(1, 3) {
+				ops = append(ops, "sibling "+hx.Pick(rng, []string{"t", "s2", "r", "u"}))
+			} else {
+				ops = append(ops, "foreign "+hx.Pick(rng, []string{"own", "batch", "iter", "parent", "sib"}))
+			}
 		case x < 95:
 			emit("fnext get")
 		case x < 97:
@@ -2017,6 +2111,9 @@ func main() {
 		{"cfg stack view,dbgnil", "new 2", "next", "next", "next", "crash idle", "new 2", "next", "mark"},
 		{"cfg stack root,dbgf:8,flush,realm:7a", "new 1", "next", "release", "next", "crash write", "new 3", "next", "mark"},
 		{"cfg stack view,dbgnilf:16,dbgf:0,dbg", "cfg fault close", "new 3", "next", "fnext set", "next", "frelease", "release", "new 1", "next"},
+		// other users of the store (other keys of the same view, parent view, sibling views: delete by prefix, clear, batches)
+		{"cfg key 73746f7265", "cfg key2 73746f726573", "new 2", "k2 new 3", "next", "k2 next", "foreign own", "foreign batch", "foreign sib", "foreign parent", "foreign iter", "next", "k2 next", "crash idle", "k2 crash idle", "new 1", "k2 new 1", "next", "k2 next", "mark", "k2 mark"},
+		{"cfg stack root,dbgf:16,flush,realm:7a", "new 1", "next", "foreign sib", "foreign own", "foreign batch", "next", "crash write", "new 2", "next", "mark"},
 		// several sequences over one store: requests of other keys inside a store call of a request (on top of the stack /
 		// inside the debug callback / with the caller parked) and concurrently (seeded change C07-r6-2: pooled value buffer)
 		{"cfg stack view,dbg", "new 10", "k2 new 10", "k2 next", "next", "release", "nest dset next / k2 release / k2 next", "crash idle", "new 10", "next", "k2 next", "mark", "k2 mark"},
